@@ -91,14 +91,14 @@ func sampleSeeds() []Seed {
 // ---- generated schemas -------------------------------------------------------------------------
 
 type hnode struct {
-	name      string
-	group     bool
-	rows      int // 0 = header/footer based
-	footer    bool
-	min, max  int // -2 = omitted
-	target    bool
-	ncols     int
-	kids      []*hnode
+	name     string
+	group    bool
+	rows     int // 0 = header/footer based
+	footer   bool
+	min, max int // -2 = omitted
+	target   bool
+	ncols    int
+	kids     []*hnode
 }
 
 func genHier(r *vh.Rng, depth int, counter *int, edi bool) []*hnode {
@@ -672,7 +672,9 @@ func genXMLKids(r *vh.Rng, depth int) string {
 // genInput produces one input of a named class for an accepted schema.
 func genInput(r *vh.Rng, sd *Seed) ([]byte, string) {
 	valid := sd.Valid(r)
-	switch r.Pick(14) {
+	switch r.Pick(16) {
+	case 14, 15:
+		return wideUnits(r, sd, valid)
 	case 0, 1:
 		return valid, "valid"
 	case 2, 3:
@@ -766,4 +768,86 @@ func genInput(r *vh.Rng, sd *Seed) ([]byte, string) {
 		}
 		return []byte(s), "line-ends-changed"
 	}
+}
+
+// widths: unit / element / column counts around the powers of two, 0..130.
+var widths = []int{0, 1, 2, 3, 7, 8, 9, 15, 16, 17, 31, 32, 33, 62, 63, 64, 65, 66, 100, 126, 127, 128, 129, 130}
+
+// wideUnits widens one unit of a valid input to a chosen number of elements / columns (EDI
+// segment elements, csv columns), or repeats a line a chosen number of times.
+func wideUnits(r *vh.Rng, sd *Seed, valid []byte) ([]byte, string) {
+	n := widths[r.Pick(len(widths))]
+	if r.Chance(0.15) {
+		n = r.Between(0, 130)
+	}
+	switch sd.Format {
+	case "edi":
+		seg, el := "~", "*"
+		if len(sd.Delims) >= 2 && sd.Delims[0] != "" && sd.Delims[1] != "" && sd.Origin != "sample" {
+			seg, el = sd.Delims[0], sd.Delims[1]
+		} else if sd.Origin == "sample" {
+			seg = "\n"
+			if !strings.Contains(string(valid), "*") {
+				el = "|"
+			}
+		}
+		segs := strings.Split(string(valid), seg)
+		k := r.Pick(len(segs))
+		name := segs[k]
+		if i := strings.Index(name, el); i >= 0 {
+			name = name[:i]
+		}
+		// the segment name followed by exactly n elements (and a variant with components)
+		var sb strings.Builder
+		sb.WriteString(name)
+		for i := 0; i < n; i++ {
+			sb.WriteString(el)
+			sb.WriteString(r.PickStr("x", "", "1", "ab"))
+		}
+		segs[k] = sb.String()
+		return []byte(strings.Join(segs, seg)), "wide-segment"
+	case "csv", "csv2":
+		d := ","
+		if len(sd.Delims) > 0 && sd.Delims[0] != "" {
+			d = sd.Delims[0]
+		}
+		lines := strings.SplitAfter(string(valid), "\n")
+		k := r.Pick(len(lines))
+		first := strings.TrimRight(lines[k], "\r\n")
+		if i := strings.Index(first, d); i >= 0 {
+			first = first[:i]
+		}
+		lines[k] = first + strings.Repeat(d+"v", n) + "\n"
+		return []byte(strings.Join(lines, "")), "wide-row"
+	}
+	lines := strings.SplitAfter(string(valid), "\n")
+	k := r.Pick(len(lines))
+	if lines[k] == "" {
+		lines[k] = "x\n"
+	}
+	lines[k] = strings.Repeat(lines[k], n)
+	return []byte(strings.Join(lines, "")), "repeated-line"
+}
+
+// faultCuts: where the input reader starts to fail: at every line boundary, inside lines, at the
+// very start and right at the end (a fault instead of io.EOF).
+func faultCuts(r *vh.Rng, in []byte, k int) []int {
+	var bounds []int
+	for i, b := range in {
+		if b == '\n' || b == '~' || b == '>' || b == '}' || b == ',' {
+			bounds = append(bounds, i+1)
+		}
+	}
+	cand := []int{0, len(in)}
+	for j := 0; j < 4 && len(bounds) > 0; j++ {
+		cand = append(cand, bounds[r.Pick(len(bounds))])
+	}
+	if len(in) > 0 {
+		cand = append(cand, r.Pick(len(in)), r.Pick(len(in)))
+	}
+	var out []int
+	for j := 0; j < k; j++ {
+		out = append(out, cand[r.Pick(len(cand))])
+	}
+	return out
 }
